@@ -43,6 +43,8 @@ type SQLCase struct {
 	// a second run-time environment for the same compiled criteria (other values, possibly
 	// other names bound); nil = none
 	Bound2 map[string]*m.Val `json:"bound2,omitempty"`
+	// Host: the run-time environments are Go structs (converted by the generated function itself)
+	Host bool `json:"host,omitempty"`
 }
 
 var uType = m.Obj(m.Field{Name: "id", T: m.Num}, m.Field{Name: "name", T: m.Str}, m.Field{Name: "at", T: m.Time}, m.Field{Name: "ok", T: m.Bool})
@@ -166,6 +168,7 @@ func genSQLCase(t *rapid.T) *SQLCase {
 		g.bound["u"] = u
 	}
 	c := &SQLCase{C: g.crit(rapid.IntRange(0, 5).Draw(t, "depth")), Bound: g.bound}
+	c.Host = rapid.IntRange(0, 3).Draw(t, "host") == 0
 	if rapid.IntRange(0, 2).Draw(t, "second") == 0 {
 		c.Bound2 = map[string]*m.Val{}
 		for _, p := range []string{"pn", "ps", "pt", "pb"} {
@@ -411,13 +414,23 @@ func checkSQL(c *SQLCase) *Outcome {
 		envs = append(envs, c.Bound2, c.Bound)
 	}
 	for round, bound := range envs {
-		ve := val.NewEnv()
-		for n, v := range bound {
-			ve.Put(n, run.ToYaeVal(v, nil))
+		var envObj interface{}
+		if c.Host && len(bound) > 0 {
+			hv := map[string]*m.Val{}
+			for n, v := range bound {
+				hv[n] = v.Conform(nil)
+			}
+			envObj = run.EnvStruct(hv)
+		} else {
+			ve := val.NewEnv()
+			for n, v := range bound {
+				ve.Put(n, run.ToYaeVal(v, nil))
+			}
+			envObj = ve
 		}
 		var sql string
 		var err error
-		if p := run.Guard(func() { sql, err = f(ve) }); p != nil {
+		if p := run.Guard(func() { sql, err = f(envObj) }); p != nil {
 			return bad("generating SQL panicked (invocation %d): %s", round+1, p.Text)
 		}
 		if err != nil {
@@ -444,6 +457,9 @@ func checkSQL(c *SQLCase) *Outcome {
 	if c.Bound2 != nil {
 		classes = append(classes, "second-environment")
 	}
+	if c.Host {
+		classes = append(classes, "environment-as-go-struct")
+	}
 	if repeatsGroup(c.C) {
 		classes = append(classes, "repeated-group")
 	}
@@ -453,7 +469,7 @@ func checkSQL(c *SQLCase) *Outcome {
 var c20 = Register(&Prop[SQLCase]{ID: "C20", Name: "sql-structure-and-quoting", Gen: genSQLCase, Check: checkSQL})
 
 func TestC20(t *testing.T) {
-	R.Rule = "criteria trees over AND / OR (binary) / NOT to depth 5 in every parent / child combination; leaves = <> > >= < <= on num / str / time / bool columns, IN lists, BETWEEN, LIKE, IS NULL; operands: literals, names bound in the run-time environment (substituted by their values), names that are columns, member access on a bound object (its fields in a drawn order); one position in five repeats a condition or group generated earlier in the same tree; one case in three invokes the compiled criteria with a second environment and then the first again; strings from a hostile pool (all three quote characters, backslashes, control characters, NUL, non-ASCII, SQL look-alikes) and random ones; finite numbers incl. > 2^53, >= 2^63, 1e21, 5e-324; oracle: the output is read back by a SQL reader with standard precedence (comparison, NOT, AND, OR) and, with same-connective nesting flattened, must be the criteria tree; each string operand is exactly one literal token that decodes to the operand, numbers are plain positional decimals that read back exactly, booleans 1 / 0, times from_unixtime(unix); non-trivial = >= 2 different connectives, or a string operand with a quote or backslash"
+	R.Rule = "criteria trees over AND / OR (binary) / NOT to depth 5 in every parent / child combination; leaves = <> > >= < <= on num / str / time / bool columns, IN lists, BETWEEN, LIKE, IS NULL; operands: literals, names bound in the run-time environment (substituted by their values), names that are columns, member access on a bound object (its fields in a drawn order); one position in five repeats a condition or group generated earlier in the same tree; one case in three invokes the compiled criteria with a second environment and then the first again; one case in four passes the environments as Go structs; strings from a hostile pool (all three quote characters, backslashes, control characters, NUL, non-ASCII, SQL look-alikes) and random ones; finite numbers incl. > 2^53, >= 2^63, 1e21, 5e-324; oracle: the output is read back by a SQL reader with standard precedence (comparison, NOT, AND, OR) and, with same-connective nesting flattened, must be the criteria tree; each string operand is exactly one literal token that decodes to the operand, numbers are plain positional decimals that read back exactly, booleans 1 / 0, times from_unixtime(unix); non-trivial = >= 2 different connectives, or a string operand with a quote or backslash"
 	R.Assume = []string{"ref.ReadSQL (harness) is standard SQL precedence; faithfulness of control-character escapes under a particular SQL dialect is not checked"}
 	reportKnown(t, "C20")
 	runRegress(t, "C20")
